@@ -135,8 +135,13 @@ Section Assemble.
   Variable vrf : key -> msgT -> sigT -> bool.
   Variable agg : list sigT -> sigT.
 
-  (* BLS completeness: the aggregate of valid single signatures over one message verifies under the multiset of their keys *)
-  Hypothesis Hfav : forall ks ss m ks',
+  (* which byte strings are valid BLS public keys (subgroup points other than the identity); FastAggregateVerify itself
+     does not validate keys — an identity-point key adds nothing to the aggregate key — so the law below is stated for
+     valid keys only and [params_wf] demands valid keys of every validator (pkg/crypto validates them, see docs/C06.md) *)
+  Variable key_ok : key -> Prop.
+  (* BLS completeness: the aggregate of valid single signatures, by VALID keys, over one message verifies under the
+     multiset of their keys *)
+  Hypothesis Hfav : forall ks ss m ks', Forall key_ok ks ->
     Forall2 (fun k s => vrf k m s = true) ks ss -> ks <> [] -> Permutation ks ks' -> fav ks' m (agg ss) = true.
   (* an aggregate signature is 96 bytes *)
   Hypothesis Hlen : forall ss, sig_len0 (agg ss) = false.
@@ -154,7 +159,8 @@ Section Assemble.
 
   Definition params_wf (e : env) : Prop :=
     forall h p, get_params e h = Some p ->
-      NoDup (map v_addr (p_validators p)) /\ NoDup (map v_key (p_validators p)).
+      NoDup (map v_addr (p_validators p)) /\ NoDup (map v_key (p_validators p)) /\
+      Forall key_ok (map v_key (p_validators p)).
 
   Definition pairf (v : validator) : N * key := (v_addr v, v_key v).
 
@@ -189,6 +195,7 @@ Section Assemble.
     Forall (fun c => sc_height c = h) cs -> Forall (valid_commit e) cs -> NoDup (map sc_addr cs) ->
     chain_at (e_chain e) h = Some hd -> get_params e h = Some p ->
     NoDup (map v_addr (p_validators p)) -> NoDup (map v_key (p_validators p)) ->
+    Forall key_ok (map v_key (p_validators p)) ->
     exists ws a,
       commit_weights (p_validators p) cs = Some ws /\
       aggregate agg cs (map (fun v => (v_addr v, v_key v)) (p_validators p)) = AOk a /\
@@ -197,7 +204,7 @@ Section Assemble.
       verify_weighted fav (map v_key vs) (ac_bits a) (ac_sig a) (map v_weight vs) (p_threshold p) (msg_of (h_cert hd))
       = Some (negb (sum64 ws 0 <? p_threshold p)).
   Proof.
-    intros e h cs hd p Hne Hh Hv Hnd Hc Hp NDa NDk.
+    intros e h cs hd p Hne Hh Hv Hnd Hc Hp NDa NDk KOK.
     set (vs := p_validators p) in *.
     set (svs := sort_by v_key vs).
     assert (Psv : Permutation svs vs) by apply sort_by_perm.
@@ -268,6 +275,8 @@ Section Assemble.
     rewrite (sumN_perm (map v_weight (filter f svs)) (map v_weight vc)) by (apply Permutation_map; auto).
     destruct (u64 (sumN (map v_weight vc)) <? p_threshold p); simpl; auto.
     f_equal. apply (Hfav (map v_key vc)).
+    - apply Forall_forall. intros k Hk. apply in_map_iff in Hk. destruct Hk as [v [Ek Hv']]. subst.
+      eapply Forall_forall in KOK; eauto. apply in_map. apply Hincl. auto.
     - change (sc_sig c0 :: map sc_sig cs') with (map (@sc_sig sigT) (c0 :: cs')). eapply vrf_forall2; apply Hvc.
     - inversion Hvc; subst. simpl. congruence.
     - apply Permutation_map. symmetry. auto.
@@ -311,7 +320,7 @@ Section Assemble.
       assert (Hv0 : valid_commit e c0) by (inversion P2; auto).
       destruct Hv0 as [hd [p [v0 [A1 [A2 [A3 [A4 A5]]]]]]].
       assert (sc_height c0 = h) by (inversion P1; auto). rewrite H in *.
-      rewrite A3. destruct (Hwf _ _ A3) as [W1 W2].
+      rewrite A3. destruct (Hwf _ _ A3) as [W1 [W2 W3]].
       destruct (aggregate_verifies e h (c0 :: cs') hd p) as [ws [a [R1 [R2 [R3 [R4 [R5 R6]]]]]]]; auto; try congruence.
       { eapply P3; eauto. }
       rewrite R1. destruct (sum64 ws 0 <? p_threshold p) eqn:Ew; auto.
